@@ -628,6 +628,7 @@ class _Simu(_IObserver, _params.Updatable, ABC):
         # Fill in the first mesh
         self.__NindexMesh: int = -1
         """Current mesh index in self.__listMesh"""
+        self.__Bc_Lagrange: list[LagrangeCondition] = []
         self.__listMesh: list[Union[str, Mesh]] = []
         self.mesh = mesh
 
@@ -2194,6 +2195,9 @@ class _Simu(_IObserver, _params.Updatable, ABC):
 
     def Bc_Init(self) -> None:
         """Initializes Dirichlet, Neumann and Lagrange boundary conditions"""
+        if len(self.__Bc_Lagrange) > 0:
+            # Lagrange conditions resize the matrix system, dropping them requires a new assembly
+            self.Need_Update()
         # DIRICHLET
         self.__Bc_Dirichlet: list[BoundaryCondition] = []
         """Dirichlet conditions list[BoundaryCondition]"""
@@ -3038,6 +3042,10 @@ class _Simu(_IObserver, _params.Updatable, ABC):
         )
 
         self.__Bc_Dirichlet.append(new_Bc)
+
+        if len(self.__Bc_Lagrange) > 0:
+            # with Lagrange conditions, the size of the matrix system depends on the Dirichlet dofs
+            self.Need_Update()
 
         tic.Tac("Boundary Conditions", "Add Dirichlet condition", self._verbosity)
 
